@@ -74,6 +74,11 @@ class Translator:
     # ------------------------------------------------------------- expressions
     def expr(self, e, cx):
         """returns (coq term, type)"""
+        # an expression the kernel table names as a parameter (conversions of attributes the model keeps in converted form)
+        if isinstance(e, (ast.Call, ast.Attribute)):
+            av = getattr(cx, 'attr_vars', {})
+            if av and ast.unparse(e) in av:
+                return av[ast.unparse(e)]
         if isinstance(e, ast.Constant):
             v = e.value
             if isinstance(v, bool):
